@@ -32,6 +32,9 @@
 #include "libfive/eval/eval_interval.hpp"
 #include "libfive/oracle/oracle_clause.hpp"
 #include "libfive/render/brep/region.hpp"
+#include "libfive/render/brep/mesh.hpp"
+#include "libfive/render/brep/settings.hpp"
+#include "libfive/render/brep/progress.hpp"
 #include "libfive_stdlib.h"
 #include "stdlib_impl.hpp"
 #include <stdexcept>
@@ -130,6 +133,18 @@ public:
     std::unique_ptr<Oracle> getOracle() const override { return std::make_unique<ExprOracle>(e); }
     std::string name() const override { return "ExprOracle" + std::to_string(k); }
     Tree e; int k;
+};
+
+// C20: a progress handler that records what it is told and exposes the protected phase table
+struct RecHandler : public ProgressHandler {
+    std::vector<double> vals; std::mutex m;
+    void progress(double d) override { std::lock_guard<std::mutex> l(m); vals.push_back(d); }
+    std::string phases_str() {
+        std::string o;
+        for (auto& p : phases) o += (o.empty() ? "" : ",") + std::to_string(p.total) + ":" + std::to_string(p.counter.load());
+        return o.empty() ? "-" : o;
+    }
+    bool fut_valid() { return future.valid(); }
 };
 
 struct Ctx {
@@ -994,6 +1009,47 @@ int main(int argc, char** argv) {
                 out("OC pts=" + std::to_string(pts) + " gpts=" + std::to_string(gpts) + " gbad=" + std::to_string(gbad)
                     + " fpts=" + std::to_string(fpts) + " fbad=" + std::to_string(fbad) + " fmiss=" + std::to_string(fmiss) + " ibad=" + std::to_string(ibad)
                     + " ppts=" + std::to_string(ppts) + " pbad=" + std::to_string(pbad) + " abad=" + std::to_string(abad) + info);
+            }
+            else if (c == "progress") {
+                // progress h alg workers minfeat lx ly lz ux uy uz scenario
+                Tree tr = H(t[1]);
+                BRepSettings st;
+                int alg = std::stoi(t[2]);
+                st.alg = alg == 0 ? DUAL_CONTOURING : alg == 1 ? ISO_SIMPLEX : HYBRID;
+                st.workers = (unsigned)std::stoul(t[3]);
+                st.min_feature = of_hex32(t[4]);
+                Region<3> rg({of_hex32(t[5]), of_hex32(t[6]), of_hex32(t[7])}, {of_hex32(t[8]), of_hex32(t[9]), of_hex32(t[10])});
+                int scenario = t.size() > 11 ? std::stoi(t[11]) : 0;
+                int level = rg.withResolution(st.min_feature).level;
+                if (scenario == 0) {
+                    auto* h = new RecHandler;
+                    st.progress_handler = h;
+                    auto mesh = Mesh::render(tr, rg, st);
+                    bool mono = true, range = true;
+                    double prev = -1;
+                    for (double v : h->vals) { if (v < prev) mono = false; if (!(v >= 0.0 && v <= 1.0)) range = false; prev = v; }
+                    std::ostringstream o;
+                    o << "PG level=" << level << " phases=" << h->phases_str() << " cb=" << h->vals.size() << " mono=" << mono
+                      << " range=" << range << " first=" << (h->vals.empty() ? -1.0 : h->vals.front()) << " last=" << (h->vals.empty() ? -1.0 : h->vals.back())
+                      << " valid_after_finish=" << h->fut_valid() << " tris=" << (mesh ? mesh->branes.size() : 0);
+                    out(o.str());
+                    // finishing twice (render already finished once; the destructor will finish again)
+                    if (!h->fut_valid()) { h->finish(); h->finish(); }
+                    delete h;
+                    out("PD done");
+                } else if (scenario == 1) {           // destroyed before anything started
+                    { RecHandler h; }
+                    { RecHandler h; h.finish(); h.finish(); }
+                    out("PD done");
+                } else if (scenario == 2) {           // phases announced, never begun
+                    { RecHandler h; h.start({1, 1, 1}); }
+                    { RecHandler h; h.start({1, 1, 1}); h.finish(); }
+                    out("PD done");
+                } else {                              // first phase running, destroyed early
+                    { RecHandler h; h.start({1, 2}); h.nextPhase(10); h.tick(3); }
+                    { RecHandler h; h.start({1, 2}); h.nextPhase(10); h.tick(10); h.nextPhase(4); h.tick(1); h.finish(); }
+                    out("PD done");
+                }
             }
             else if (c == "ivcheck") {
                 // ivcheck h lx ly lz ux uy uz exact(0/1) : C02's statement on one expression and box
